@@ -79,6 +79,10 @@ def dim(e: ast.expr, env: Dict[str, str]) -> str:
     if isinstance(e, ast.Name):
         return env.get(e.id, "?")
     if isinstance(e, ast.Call) and isinstance(e.func, ast.Name) and e.func.id == "len":
+        if e.args and isinstance(e.args[0], ast.Name) and env.get(e.args[0].id) == "W":
+            # the view parameter is the whole encoded filter, handed down unsliced: its length is the absolute end of the input,
+            # not the extent of the part this call was asked to parse
+            return "A"
         if e.args and IS_TEXT is not None and IS_TEXT(e.args[0]):
             # positions and extents of the scanner count octets of the encoded filter; len() of the text counts characters
             return f"ERR:{norm(e)}: a character count of the text is used where octets of its encoded form are counted"
@@ -139,6 +143,11 @@ def dim_env(fi: FuncInfo) -> Dict[str, str]:
             env[p] = "A"
         elif p == "length":
             env[p] = "L"
+    if not isinstance(fi.node, ast.Lambda) and {"offset", "length"} <= set(fi.params()):
+        stores = {x.id for x in walk_no_nested(fi.node) if isinstance(x, ast.Name) and isinstance(x.ctx, ast.Store)}
+        for a in fi.node.args.posonlyargs + fi.node.args.args + fi.node.args.kwonlyargs:
+            if a.annotation is not None and "memoryview" in norm(a.annotation) and a.arg not in stores:
+                env[a.arg] = "W"          # the whole input, of which (offset, length) name a part
     nodes = sorted((n for n in walk_no_nested(fi.node) if isinstance(n, (ast.Assign, ast.AnnAssign, ast.AugAssign, ast.For))), key=lambda n: n.lineno)
     for _ in range(3):
         for n in nodes:
